@@ -45,6 +45,10 @@ var Families = map[string]func(t *testing.T, seed int64, steps int) *Cluster{
 	"stalledleader": famStalledLeader,
 	"restorebacklog": famRestoreBacklog,
 	"ctcrash":     famCTCrash,
+	"apibound":    famAPIBound,
+	"leaseadd":    famLeaseAdd,
+	"verifywide":  famVerifyWide,
+	"fastpathterm": famFastPathTerm,
 	"transferstuck": famTransferStuck, // not in any plan: kept as a scenario, the defect it was written for needs a rarer trigger (see DESIGN 7.16)
 }
 
